@@ -15,9 +15,12 @@
    instantiations agree, input unchanged afterwards — the model and the specification say [1; 1; 1].
    sub 0 = model; sub 1 = specification (unbounded scan for ParseUint, positional definition for hex, x itself for the
    IPv4 round trip; for kinds 4-8 the standard-library primitive IS the specification: same as the model).
+   sub 3 = the DECLARATIVE grammar specification of ParseUint (Model/StrconvGrammar.v go_parse_uint; other kinds as sub 1);
+   sub 4 = [underscoreOK state machine on l1; its declarative token-level reading on l1]  (both proved equal to the
+   model in Proofs/StrconvGrammar*.v; here so that the grammar can be run against the real strconv).
    Standard-library primitives are looked up in the oracle table; a missing entry yields [ASK; query]. *)
 From Coq Require Import List ZArith Bool.
-From V Require Import Lib.Enc Gen.StrzStd Model.Strconv Model.Hex.
+From V Require Import Lib.Enc Gen.StrzStd Model.Strconv Model.Hex Model.StrconvGrammar.
 Import ListNotations.
 Local Open Scope Z_scope.
 
@@ -63,6 +66,8 @@ Definition entry (sub : Z) (args : list Z) : list Z :=
       let tbl := match r2 with n :: t => fst (get_table (Z.to_nat n) t) | [] => [] end in
       if sub =? 0 then run false k a b l1 l2 tbl
       else if sub =? 1 then run true k a b l1 l2 tbl
+      else if sub =? 3 then (if k =? 0 then presult_tokens (go_parse_uint l1 a b) ++ flags else run true k a b l1 l2 tbl)
+      else if sub =? 4 then [if underscore_ok l1 then 1 else 0; if go_underscore_ok l1 then 1 else 0]
       else [BADCASE]
   | _ => [BADCASE]
   end.
